@@ -131,6 +131,7 @@ class TapMixin:
         self.step_no += 1
         self.in_step = True
         self._sentinel_next = False    # run() places its stop before the first step
+        head = self._queue[0][3] if self._queue else None
         try:
             n0 = len(self.log)
             super().step()
@@ -142,10 +143,19 @@ class TapMixin:
                         del self._dead_sentinels[k]
                         self.log.append(('P', self.tick(), lb, self.now, self.step_no, True, None))
                         break
-        except EmptySchedule:
+        except EmptySchedule as e:
+            if head is not None:
+                # the agenda was not empty: this is the uncaught exception of a process (or an unhandled failed event)
+                # that happens to be of the kernel's own signal type - an escaping failure like any other
+                self.log.append(('X', self.tick(), self.step_no, san(e)))
+                raise
             self.step_no -= 1
             raise
-        except StopSimulation:
+        except StopSimulation as e:
+            if head is not None and getattr(head, '_ok', True) is False and isinstance(getattr(head, '_value', None), StopSimulation) \
+                    and head._value.args == e.args and getattr(e, 'failed', None) is None:
+                self.log.append(('X', self.tick(), self.step_no, san(e)))     # ditto: not a stop request of run()
+                raise
             ps = self._pending_sentinel
             if ps is None and self._dead_sentinels and self._dead_sentinels[0][1] == self.now and not any(
                     r[0] == 'P' for r in self.log[n0:]):
